@@ -375,18 +375,6 @@ pub open spec fn functor_post(bip: BuiltInPredicate, ss: RSS, res: Option<RSS>) 
 }
 
 // --- join (C17) ----------------------------------------------------------------------
-// Display of a term (format!("{}", term)), uninterpreted
-pub uninterp spec fn disp(t: Unifiable) -> Seq<char>;
-
-// R10 targets for evaluate_join (each body is the wrapped statement)
-#[verifier::external_body]
-pub fn disp_term(t: &Unifiable) -> (r: String)
-    ensures r@ == disp(*t),
-{ unimplemented!() /* format!("{}", t) */ }
-#[verifier::external_body]
-pub fn str_append(out: &mut String, s: &String)
-    ensures final(out)@ == old(out)@ + s@,
-{ unimplemented!() /* *out += s; */ }
 #[verifier::external_body]
 pub fn str_append_spaced(out: &mut String, s: &String)
     ensures final(out)@ == old(out)@ + (seq![' '] + s@),
